@@ -64,4 +64,28 @@ theorem c01_protect_of_match (c : CryptoOps) (kv : KeyView) (k : Kind) (d rnd : 
   unfold protect
   rcases h with h | h <;> simp [h]
 
+/-- everything `reveal` and the column processor need to know about a value protected as AcraBlock -/
+theorem c01_protect_block_facts (c : CryptoOps) (hs : SealLaws c) (kvW kvR : KeyView) (key m rnd p : Bytes)
+    (pre post : List Bytes)
+    (hkid : (keyId c key []).length = 2)
+    (hW : kvW.sym = some key) (hR : kvR.syms = some (pre ++ key :: post))
+    (hpre : ∀ k' ∈ pre, ∀ encKey, c.enc key [] (rnd.take 32) ((rnd.drop 44).take 12) = some encKey →
+      keyId c k' [] = keyId c key [] → c.dec k' [] encKey = none ∨ c.dec k' [] encKey = some (rnd.take 32))
+    (hEncKey : ∀ encKey, c.enc key [] (rnd.take 32) ((rnd.drop 44).take 12) = some encKey → encKey.length < 65536)
+    (hplen : p.length < 2^63)
+    (hnm : matchKind .block m = false) (hnr : registryMatch m = false)
+    (hp : protect c kvW .block m rnd = .ok p) :
+    ∃ e, p = serBytes e Kind.block.id ∧ e ≠ [] ∧ e.length + 12 < 2^63 ∧ matchKind .block e = true ∧
+      decryptKind c kvR .block e = .ok m := by
+  obtain ⟨e, he, hne', rfl⟩ := c01_protect_ok hp hnm hnr
+  obtain ⟨key', hk', hcb⟩ := c01_encryptKind_block he hnm
+  rw [hW] at hk'; cases hk'
+  rw [c01_serBytes_length] at hplen
+  obtain ⟨encData, encKey, h1, h2, rfl⟩ := c01_createBlock_ok hcb
+  have hx := c01_extractBlock_build (keyId c key []) encKey encData [] hkid (by omega)
+  rw [List.append_nil] at hx
+  have hd := c01_decryptBlock_build c hs key [] _ m encKey encData _ _ pre post hkid (hEncKey _ h2) h1 h2
+    (fun k' hk' hid => hpre k' hk' encKey h2 hid)
+  exact ⟨_, rfl, hne', by omega, by simp [matchKind, hx, Out.isOk], c01_decryptKind_block c kvR _ m _ hx hR hd⟩
+
 end AcraModel.Envelope
